@@ -5,6 +5,7 @@ hubprops.PLAN["C01"] = [
     {"fam": "repo-tests", "scen": "repo-tests", "num_q": 0, "num_t": 0},
     {"fam": "Routing", "num_q": 50, "num_t": 600, "depth": 80},
     {"fam": "Failures", "num_q": 60, "num_t": 600, "depth": 80},
+    {"fam": "routing-edges", "scen": scenarios.routing_edges, "num_q": 0, "num_t": 0, "prof_q": 2, "prof_t": 4},
 ]
 
 
